@@ -2131,6 +2131,8 @@ bool TypeChecker::checkExpression(expression_t expr)
         bool result = true;
         type_t type = expr[0].get_type();
         size_t parameters = type.size() - 1;
+        if (expr.get_size() != parameters + 1)
+            return false;  // reported when the call was built ($Wrong_number_of_arguments); a query is still type checked
         for (uint32_t i = 0; i < parameters; i++) {
             type_t parameter = type[i + 1];
             expression_t argument = expr[i + 1];
